@@ -1,6 +1,6 @@
 // E-math (C19, C20): sqrt (online, exact squares), exp2 and <numbers> constants (logged, judged offline).
 #pragma once
-#include "harness/c01.h"
+#include "harness/c11.h"  // (deep / deepval for multi-limb storage)
 
 #include <cnl/all.h>
 #include <numbers>
@@ -75,6 +75,53 @@ void sqrt_int(char const* desc)
                 one(rand_val<T>(rng), false);
             }
         }
+    }
+    t.emit();
+}
+
+// any integer-like CNL type (wide_integer of odd/even digit counts, signed/unsigned, single- and multi-word; rounding / overflow wrappers):
+// r^2 <= x < (r+1)^2
+template<class W>
+void sqrt_type(char const* desc)
+{
+    if (!kernel_selected(desc)) return;
+    Tally t(desc);
+    Rng rng(mix(env_seed(), hash_str(desc)));
+    std::vector<X> vals;
+    constexpr int D = cnl::digits_v<W>;
+    X const hi = c11::deepval(std::numeric_limits<W>::max());
+    for (int d = 0; d < 4; ++d) vals.push_back(X::from_i(d));
+    for (int k = 1; k < D && k < 255; ++k)
+        for (int d = -1; d <= 1; ++d) { X v = xpow2((unsigned)k) + X::from_i(d); if (v <= hi) vals.push_back(v); }
+    size_t nd = vals.size();
+    for (long i = 0; i < env_long("VERIF_N", 20000) / 10; ++i) {
+        X v;
+        for (int w = 0; w < 4; ++w) v.m[w] = rng.next();
+        int bits = 1 + (int)rng.below((uint64_t)std::min(D, 255));
+        v = shr_mag(v, 256 - bits);
+        if (v <= hi) vals.push_back(v);
+    }
+    // the upper half of the range, where the first trial bit matters
+    for (long d = 0; d < 1500; ++d) { X v = hi - X::from_i(d); if (!v.neg) vals.push_back(v); }
+    for (int i = 0; i < 1500; ++i) {
+        X v = hi - tdiv(hi, X::from_u(2 + rng.below(7)));
+        v = v - X::from_u(rng.below(1000000));
+        if (!v.neg) vals.push_back(v);
+    }
+    for (size_t i = 0; i < vals.size() && !t.closed; ++i) {
+        X const& x = vals[i];
+        if (x.neg) { ++t.ood; continue; }
+        X got;
+        arm_timer(500);
+        Outcome o = guarded([&] { got = c11::deepval(cnl::sqrt(c11::deep<W>(x))); });
+        arm_timer(0);
+        std::string v = o.kind == VALUE ? judge_sqrt(x, got) : kind_name(o.kind);
+        bool nt = i < nd || x >= tdiv(hi, X::from_u(2));
+        if (v.empty()) {
+            t.held(o, nt);
+            t.sample(nt, [&] { return x.str(); }, [&] { return std::string("floor(sqrt(x))"); }, [&] { return got.str(); });
+        } else
+            t.violation(v, o, x.str(), "floor(sqrt(x))", outcome_str(o, got.str()), nt);
     }
     t.emit();
 }
